@@ -1,9 +1,71 @@
-(** Property C17 — theorems only (statement, [exact], [Print Assumptions]).
-    See DESIGN.md section 5 for how each statement renders the property. *)
-From CB Require Import ProofLib Spec Inv_map.
+(** Property C17 - no panics with conformant peers
+    Theorems only: statement, [exact], [Print Assumptions].  The statements are about the model
+    (coq/theories/Ops.v) under the conformant environment (Machine.v: [reach]); the readable trace
+    predicates are defined in MonitorSound.v, the parameter regimes in Results.v.  How each
+    statement renders the property, and how the model is tied to /repo, is in DESIGN.md. *)
+From CB Require Import ProofLib Spec MonitorSound Results.
+From CB Require Import Inv_combine Inv_share.
 
-Theorem C17_map (f : val -> val) p :
-  nsinks p = 1 -> resub p = false -> no_nest p = false -> c14 p = false ->
-  forall c : cfg (map_op f), reach p g_std c -> viols (ms c) = [] /\ dead c = false.
-Proof. exact (@map_safe f p). Qed.
+Theorem C17_map (f : val -> val) p (c : cfg (map_op f)) :
+  std p -> reach p g_std c -> no_panic (trace c).
+Proof. exact (fun H Hc => pk_c17 (map_protocol H Hc)). Qed.
 Print Assumptions C17_map.
+
+Theorem C17_filter (cond : val -> bool) p (c : cfg (filter_op cond)) :
+  std p -> reach p g_std c -> no_panic (trace c).
+Proof. exact (fun H Hc => pk_c17 (filter_protocol H Hc)). Qed.
+Print Assumptions C17_filter.
+
+Theorem C17_scan (r : val -> val -> val) (seed : val) p (c : cfg (scan_op r seed)) :
+  std p -> reach p g_std c -> no_panic (trace c).
+Proof. exact (fun H Hc => pk_c17 (scan_protocol H Hc)). Qed.
+Print Assumptions C17_scan.
+
+Theorem C17_skip (max : nat) p (c : cfg (skip_op max)) :
+  std p -> reach p g_std c -> no_panic (trace c).
+Proof. exact (fun H Hc => pk_c17 (skip_protocol H Hc)). Qed.
+Print Assumptions C17_skip.
+
+Theorem C17_take (max : nat) p (c : cfg (take_op max)) (Hmax : 1 <= max) :
+  std p -> reach p g_std c -> no_panic (trace c).
+Proof. exact (fun H Hc => pk_c17 (take_protocol Hmax H Hc)). Qed.
+Print Assumptions C17_take.
+
+Theorem C17_from_iter (it : nat -> option val) p (c : cfg (from_iter_op it)) :
+  std_nonest p -> reach p g_std c -> no_panic (trace c).
+Proof. exact (fun H Hc => pk_c17 (from_iter_protocol H Hc)). Qed.
+Print Assumptions C17_from_iter.
+
+Theorem C17_for_each p (c : cfg for_each_op) :
+  std p -> reach p g_std c -> no_panic (trace c).
+Proof. exact (fun H Hc => pk_c17 (for_each_protocol H Hc)). Qed.
+Print Assumptions C17_for_each.
+
+Theorem C17_interval p (c : cfg interval_op) :
+  std p -> reach p (fun _ _ => true) c -> no_panic (trace c).
+Proof. exact (fun H Hc => pk_c17 (interval_protocol H Hc)). Qed.
+Print Assumptions C17_interval.
+
+Theorem C17_merge (n : nat) p (c : cfg (merge_op n)) (Hn : 1 <= n) :
+  std_late p -> reach p g_std c -> no_panic (trace c).
+Proof. exact (fun H Hc => pk_c17 (merge_protocol Hn H Hc)). Qed.
+Print Assumptions C17_merge.
+
+Theorem C17_concat (n : nat) p (c : cfg (concat_op n)) :
+  std p -> reach p g_std c -> no_panic (trace c).
+Proof. exact (fun H Hc => pk_c17 (concat_protocol H Hc)). Qed.
+Print Assumptions C17_concat.
+
+(** share, for every number of sinks, as C12 quantifies it (no nested fan-out: guard [g_share]) *)
+Theorem C17_share p (c : cfg share_op) :
+  share_regime p -> reach p g_share c -> no_panic (trace c).
+Proof. exact (fun H Hc => sk_c17 (share_protocol H Hc)). Qed.
+Print Assumptions C17_share.
+
+(** combine (every arity n >= 1).  combine has recorded deviations (known_findings.json: KF1, KF2);
+    the theorem is that the monitor never records anything *but* those four kinds, so the
+    kinds of this property never occur. *)
+Theorem C17_combine (n : nat) p (c : cfg (combine_op n)) :
+  1 <= n -> std p -> reach p g_std c -> dead c = false /\ ~ In VPanic (viols (ms c)).
+Proof. exact (@combine_c17 n p c). Qed.
+Print Assumptions C17_combine.
